@@ -167,6 +167,9 @@ int vf_main(void) {
     if (SUBC) { r = m_mod_ps_subscribe(C, SEND == 1 ? lit : rxC, M_SRC_PRIO_HIGH, NULL); VF_CHECK(r == 0, "C re-subscribes with other flags after the send"); regC = SUBC && SEND == 2 ? &((ev_src_t *)m_map_get(C->subscriptions, rxC))->ps_src.reg : regC; }
 #endif
     for (int d = 0; d < NSEND + 2; d++) r = m_ctx_dispatch();
+#if PAUSEB
+    expB = 0;                                       /* a PAUSED module is not polled: nothing yet */
+#endif
 #endif
     int gotB = 0, gotC = 0, gotA = 0;
     for (int i = 0; i < NSEND; i++) {
